@@ -374,3 +374,61 @@ def _values_after(pkg, cls, model, key, s, names):
     finally:
         model.InputParameters = {}
     return {n: repr(o.ParameterDict[n].value) for n in names}
+
+
+# ---------------------------------------------------------------------------------------------------------
+# list parameters that go through ReadParameter (C19: published minimum / maximum of array entries)
+# ---------------------------------------------------------------------------------------------------------
+
+def list_line(name, elems):
+    return f'{name}, ' + ', '.join(fl(x) for x in elems)
+
+
+def observe_list(p, name, elems, model):
+    """The real ReadParameter on a copy of a live listParameter; sValue is the first element, raw_entry the line.
+    -> (True: the supplied list is stored | False: the value is untouched | None: raised / anything else, text)"""
+    from geophires_x.Parameter import ParameterEntry, ReadParameter
+    q = copy.deepcopy(p)
+    before = list(q.value)
+    out = io.StringIO()
+    try:
+        with contextlib.redirect_stdout(out):
+            ReadParameter(ParameterEntry(Name=name, sValue=fl(elems[0]), raw_entry=list_line(name, elems)), q, model)
+    except Exception as e:  # noqa
+        return None, f'{type(e).__name__}: {e}'[:160]
+    after = list(q.value)
+    text = f'value after the read: {after}' + (f'; reader said: {out.getvalue().strip()[:120]!r}' if out.getvalue().strip() else '')
+    if after == [float(x) for x in elems]:
+        return True, text
+    return (False if after == before else None), text
+
+
+def family_read_list(job):
+    """Worker: Model(input) + Model.read_parameters() on a base text without per-segment lines, with / without the list line.
+    -> the list held by the active reservoir afterwards (or an error text)"""
+    import logging
+    import os
+    import sys
+    import uuid
+    from pathlib import Path
+    base_text, name, line, drop, scratch = job
+    logging.disable(logging.CRITICAL)
+    keep = [ln for ln in base_text.splitlines() if not any(ln.strip().startswith(d) for d in drop + (name,))]
+    path = Path(scratch, f'faml_{uuid.uuid4().hex[:12]}.txt')
+    path.write_text('\n'.join(keep) + '\n' + (line + '\n' if line else ''))
+    stash = (os.getcwd(), sys.argv)
+    try:
+        with contextlib.redirect_stdout(io.StringIO()):
+            import geophires_x.Model as M
+            sys.argv = ['', str(path), str(path.with_suffix('.out'))]
+            os.chdir(os.path.dirname(os.path.abspath(M.__file__)))
+            m = M.Model(enable_geophires_logging_config=False)
+            m.read_parameters(default_output_path=Path(scratch))
+            return [float(x) for x in m.reserv.ParameterDict[name].value]
+    except BaseException as e:  # noqa
+        return f'{type(e).__name__}: {e}'[:200]
+    finally:
+        os.chdir(stash[0])
+        sys.argv = stash[1]
+        with contextlib.suppress(OSError):
+            path.unlink()
